@@ -350,7 +350,8 @@ bool PubSubIqBase::isPubSubIq(const QDomElement &element, bool (*isItemValid)(co
     case Retract:
     case Delete:
     case Purge:
-        if (!queryElement.hasAttribute(u"node"_s)) {
+        // (an empty attribute is not written back by toXml(), so it does not count as present)
+        if (queryElement.attribute(u"node"_s).isEmpty()) {
             return false;
         }
     default:
@@ -363,7 +364,7 @@ bool PubSubIqBase::isPubSubIq(const QDomElement &element, bool (*isItemValid)(co
     case OwnerSubscriptions:
     case Subscribe:
     case Unsubscribe:
-        if (!queryElement.hasAttribute(u"jid"_s)) {
+        if (queryElement.attribute(u"jid"_s).isEmpty()) {
             return false;
         }
     default:
